@@ -178,6 +178,29 @@ func c09Cases(prod string, tier string) []c09Case {
 			{[]int{4}, []int{4, 2}, []int{0}, []int{0}},
 			{[]int{2, 1, 3}, []int{3, 1}, []int{2}, []int{0}},
 		}
+		// every ORDER in which two (and all three) axes of a rank-3 operand can be listed, against leading, trailing and
+		// swapped axes of the other operand: the listing order decides which axis is paired with which, and the
+		// implementation permutes its operands according to it (quick: a subset of the other operand's orders)
+		sa3 := []int{2, 3, 4}
+		for i := 0; i < 3; i++ {
+			for j := 0; j < 3; j++ {
+				if i == j {
+					continue
+				}
+				for _, axB := range [][]int{{0, 1}, {2, 1}, {1, 0}, {1, 2}, {0, 2}, {2, 0}} {
+					if tier != "thorough" && !((axB[0] == 0 && axB[1] == 1) || (axB[0] == 2 && axB[1] == 1)) {
+						continue
+					}
+					sb := []int{2, 2, 2}
+					sb[axB[0]], sb[axB[1]] = sa3[i], sa3[j]
+					list = append(list, tm{sa3, sb, []int{i, j}, append([]int(nil), axB...)})
+				}
+			}
+		}
+		for _, pa := range [][]int{{0, 2, 1}, {1, 0, 2}, {2, 1, 0}, {1, 2, 0}, {2, 0, 1}} {
+			sb := []int{sa3[pa[0]], sa3[pa[1]], sa3[pa[2]]}
+			list = append(list, tm{sa3, sb, pa, []int{0, 1, 2}})
+		}
 		for _, x := range list {
 			x := x
 			norm := func(ax []int, rank int) []int {
